@@ -1,11 +1,16 @@
 #!/bin/sh
-# usage: try_seed.sh <patch.diff> <PID> [tier]   -- applies the patch to /repo, runs the check, undoes the patch
+# usage: try_seed.sh <patch.diff> <PID> [tier]   -- applies the patch to /repo, runs the check, undoes the patch.
+# The evidence file and the replays written by that run are not kept (they describe a mutated tree).
 set -u
 P="$1"; PID="$2"; TIER="${3:-quick}"
 cd /repo || exit 2
 git apply --check "$P" || { echo "patch does not apply"; exit 2; }
+EV=/verif/evidence/$PID.json
+[ -f "$EV" ] && cp "$EV" "$EV.keep"
 git apply "$P"
 /venv/bin/python /verif/tools/check.py "$PID" --tier "$TIER" 2>&1 | grep -v conda | grep -v "^KNOWN-FINDING" | tail -8
-RC=$?
-git -C /repo checkout -- . 
+git -C /repo checkout -- .
 git -C /repo status --short | head -3
+[ -f "$EV.keep" ] && mv "$EV.keep" "$EV"
+# regenerate coq/Gen from the restored tree so that the next build starts from the unchanged source
+cd /verif && PYTHONHASHSEED=0 PYTHONPATH=/repo/src /venv/bin/python tools/translate_all.py > /dev/null 2>&1
